@@ -683,22 +683,51 @@ def selector_table_rule(m, rid):
 
 # ---------------------------------------------------------------------------------------------------------------
 # the list/spec helpers of fparser.common.utils used by fparser1, decided as tables with an item model
-def _mini_map(line):
-    """Model of Line.get_line(): character literals and the content of (outermost) parenthesised groups are replaced by placeholders;
-    returns (mapped text, restore function).  Placeholders are word characters only, like the real ones."""
+def _lower_outside_literals(text):
+    out, q = [], None
+    for ch in text:
+        if q:
+            out.append(ch)
+            if ch == q:
+                q = None
+        else:
+            if ch in "'\"":
+                q = ch
+            out.append(ch.lower() if q is None else ch)
+    return "".join(out)
+
+
+def _mini_map(line, lower=False):
+    """Model of Line.get_line() / string_replace_map, as documented there: the inside of every character literal that is not a plain word
+    becomes `_F2PY_STRING_CONSTANT_n_` (quotes stay), the stripped inside of every top-level parenthesised group that is not a plain
+    name becomes `F2PY_EXPR_TUPLE_n` (parentheses stay).  Returns (mapped text, restore function)."""
     out, table = [], {}
     i, n = 0, len(line)
+    n_str = n_par = 0
 
-    def key(kind):
-        return "%s_%d_" % (kind, len(table) + 1)
+    def is_word(t):
+        return all(c.isalnum() or c == "_" for c in t)
     while i < n:
         ch = line[i]
         if ch in "'\"":
-            j = line.find(ch, i + 1)
-            j = n - 1 if j == -1 else j
-            k = key("_F2PY_STRING_CONSTANT")
-            table[k] = line[i:j + 1]
-            out.append(k)
+            j = i + 1
+            while True:
+                j = line.find(ch, j)
+                if j == -1:
+                    j = n - 1
+                    break
+                if line[j:j + 2] == ch + ch:        # doubled quote inside the literal
+                    j += 2
+                    continue
+                break
+            inner = line[i + 1:j]
+            if is_word(inner):
+                out.append(line[i:j + 1])
+            else:
+                n_str += 1
+                k = "_F2PY_STRING_CONSTANT_%d_" % n_str
+                table[k] = inner
+                out.append(ch + k + line[j:j + 1])
             i = j + 1
         elif ch == "(":
             depth, j = 1, i + 1
@@ -712,20 +741,22 @@ def _mini_map(line):
                     depth -= 1
                 j += 1
             inner = line[i + 1:j - 1] if depth == 0 else line[i + 1:j]
-            if inner.strip() and not inner.strip().replace("_", "").isalnum():
-                k = key("F2PY_EXPR_TUPLE")
-                table[k] = inner
-                out.append("(" + k + (")" if depth == 0 else ""))
-            else:
+            if is_word(inner.strip()):
                 out.append(line[i:j])
+            else:
+                n_par += 1
+                k = "F2PY_EXPR_TUPLE_%d" % n_par
+                table[k] = _lower_outside_literals(inner.strip()) if lower else inner.strip()
+                out.append("(" + k + (")" if depth == 0 else ""))
             i = j
         else:
-            out.append(ch)
+            out.append(ch.lower() if lower else ch)
             i += 1
 
     def restore(text):
-        for k, v in table.items():
-            text = text.replace(k, v)
+        # longest keys first: F2PY_EXPR_TUPLE_10 contains F2PY_EXPR_TUPLE_1
+        for k in sorted(table, key=len, reverse=True):
+            text = text.replace(k, table[k])
         return text
     return "".join(out), restore
 
@@ -737,7 +768,7 @@ def _item_model(PE, line, restore=None):
 
     def get_line():
         if "mapped" not in state:
-            state["mapped"], state["restore"] = _mini_map(line)
+            state["mapped"], state["restore"] = _mini_map(line, lower=True)     # Line.get_line() folds case outside literals
         return state["mapped"]
 
     def apply_map(text):
